@@ -175,4 +175,112 @@ def readAll : List Item → List Nat → List (Option Item)
   | _, [] => []
   | q, l :: ls => (trackRead q l).1 :: readAll (trackRead q l).2 ls
 
+/-! ### the receiver as a whole: primary-stream events interleaved with repair reads
+
+The repair reader asks the track for `PayloadType()` and `SSRC()` anew for every packet, so what an
+unwrapped packet carries is the track's state at the moment it is unwrapped. That state moves:
+`TrackRemote.read` → `checkAndUpdateTrack` adopts the payload type of each primary packet it returns
+(when the MediaEngine knows a codec for it), and `receiveForRid` binds the track to a new SSRC. -/
+
+structure Recv where
+  pt : Byte              -- remoteTrack.PayloadType()
+  ssrc : Nat             -- remoteTrack.SSRC()
+  q : List Item          -- repairStreamChannel
+  prim : List Bs         -- what the primary stream's interceptor will return, oldest first
+  closed : Bool
+  deriving DecidableEq, Repr
+
+inductive Ev where
+  | feed (i : Input)          -- one read of the repair interceptor
+  | read (len : Nat)          -- TrackRemote.Read with a buffer of `len` bytes
+  | primary (pkt : Bs)        -- a packet arrives on the primary stream
+  | rebind (ssrc : Nat)       -- receiveForRid binds the primary stream again, with this SSRC
+  | stop                      -- RTPReceiver.Stop
+  deriving DecidableEq, Repr
+
+/-- outcome of `checkAndUpdateTrack(b)` on the caller's buffer -/
+inductive Check where
+  | ok (pt : Byte)            -- the track's payload type afterwards
+  | tooShort                  -- `len(b) < 2`
+  | unknownCodec              -- `getRTPParametersByPayloadType` failed; track unchanged
+  deriving DecidableEq, Repr
+
+/-- `checkAndUpdateTrack`: `b` is the caller's (zeroed) buffer of `len` bytes after `copy(b, pkt)`;
+    `known` is the MediaEngine's `getCodecByPayload` succeeding. (`len(t.params.Codecs) == 0` does not
+    occur: the track was bound with a codec.) -/
+def checkAndUpdateTrack (known : Byte → Bool) (cur : Byte) (pkt : Bs) (len : Nat) : Check :=
+  if len < 2 then .tooShort
+  else
+    let p := ((pkt.take len)[1]?).getD 0 &&& 0x7F
+    if p != cur then (if known p then .ok p else .unknownCodec) else .ok cur
+
+/-- what one `TrackRemote.Read` returned -/
+inductive Obs where
+  | eof
+  | none                                  -- nothing waiting anywhere (the primary interceptor's own error)
+  | rtx (it : Item) (len : Nat)           -- the item as queued; the caller sees `it.pkt.take len`
+  | pri (pkt : Bs) (len : Nat)            -- a primary packet (cut to `len`), no error
+  | priTooShort (pkt : Bs) (len : Nat)    -- … with errRTPTooShort
+  | priUnknownCodec (pkt : Bs) (len : Nat)-- … with ErrCodecNotFound
+  deriving DecidableEq, Repr
+
+/-- ghost record: an item entered the channel while the track had this payload type and SSRC -/
+structure Stamp where
+  pt : Byte
+  ssrc : Nat
+  item : Item
+  deriving DecidableEq, Repr
+
+/-- the queued packet carries the payload type (marker bit aside) and the SSRC of its stamp -/
+def Stamp.carries (st : Stamp) : Prop :=
+  (∃ b1 : Byte, st.item.pkt[1]? = some ((b1 &&& 0x80) ||| st.pt)) ∧
+  st.item.pkt[8]? = some (Bytes.b (st.ssrc / 16777216)) ∧ st.item.pkt[9]? = some (Bytes.b (st.ssrc / 65536)) ∧
+  st.item.pkt[10]? = some (Bytes.b (st.ssrc / 256)) ∧ st.item.pkt[11]? = some (Bytes.b st.ssrc)
+
+/-- One event. `none` = the reader goroutine panicked. After `stop` the reader may or may not still
+    queue a packet (both `select` cases are ready); no read can see the difference, the model drops it. -/
+def step (known : Byte → Bool) (s : Recv) : Ev → Option (Recv × List Obs × List Stamp)
+  | .feed i =>
+    match unwrap i.buf i.n s.pt s.ssrc with
+    | .panic => none
+    | .dropped => some (s, [], [])
+    | .delivered pkt a =>
+      if s.closed = false ∧ s.q.length < chanCap then
+        some ({ s with q := s.q ++ [{ pkt, attrs := a, carried := i.carried }] }, [],
+              [{ pt := s.pt, ssrc := s.ssrc, item := { pkt, attrs := a, carried := i.carried } }])
+      else some (s, [], [])
+  | .read len =>
+    if s.closed then some (s, [.eof], [])
+    else
+      match s.q with
+      | it :: rest => some ({ s with q := rest }, [.rtx it len], [])
+      | [] =>
+        match s.prim with
+        | [] => some (s, [.none], [])
+        | pkt :: more =>
+          match checkAndUpdateTrack known s.pt pkt len with
+          | .ok p => some ({ s with prim := more, pt := p }, [.pri pkt len], [])
+          | .tooShort => some ({ s with prim := more }, [.priTooShort pkt len], [])
+          | .unknownCodec => some ({ s with prim := more }, [.priUnknownCodec pkt len], [])
+  | .primary pkt => some ({ s with prim := s.prim ++ [pkt] }, [], [])
+  | .rebind ssrc => if s.closed then some (s, [], []) else some ({ s with ssrc := ssrc }, [], [])
+  | .stop => some ({ s with closed := true }, [], [])
+
+/-- a whole history: final state, what the reads returned, and the ghost log of queued items -/
+def run (known : Byte → Bool) : Recv → List Ev → Option (Recv × List Obs × List Stamp)
+  | s, [] => some (s, [], [])
+  | s, e :: es =>
+    match step known s e with
+    | none => none
+    | some (s1, o1, l1) =>
+      match run known s1 es with
+      | none => none
+      | some (s2, o2, l2) => some (s2, o1 ++ o2, l1 ++ l2)
+
+/-- the RTX items among the reads, oldest first -/
+def rtxItems : List Obs → List Item
+  | [] => []
+  | .rtx it _ :: rest => it :: rtxItems rest
+  | _ :: rest => rtxItems rest
+
 end WebrtcVerif.Rtx
